@@ -411,9 +411,19 @@ def gen_nested_frames(rng):
     caller's parameter (`f(h($p), 1)`, callee `f` having a parameter of the same name `p` bound to something else), and
     — as faults — a body that reads a variable it does not declare while an ENCLOSING invocation binds that name, or an
     invocation that supplies too few arguments for a parameter the caller also has"""
-    kind = rng.choice(["arg_call", "arg_call", "arg_call_noparam", "leak", "leak_deep", "few_args"])
+    kind = rng.choice(["arg_call", "arg_call", "arg_call_noparam", "leak", "leak_deep", "few_args", "neg_arg", "neg_arg"])
     a, b, c = rng.sample(range(2, 30), 3)
-    if kind == "arg_call":
+    if kind == "neg_arg":
+        # an argument whose VALUE is negative (literal, difference, backward label distance), forwarded or not: `$p` stands
+        # for that value, sign included, while the operand as a whole stays non-negative
+        neg = rng.choice([["-" + str(a)], [str(b), "-", str(b + a)], ["top", "-", "bottom"], ["0", "-", str(rng.choice([1, 128, 129, 255, 256, 65536]))]])
+        prog = [("edef", "add", ["x"], X(rng, ["$x", "+", str(rng.choice([300, 1000, 70000]))])),
+                ("edef", "neg2", ["d"], X(rng, ["0", "-", "$d"])),
+                ("edef", "fw", ["p", "q"], X(rng, ["add", "(", "$p", "-", "$q", ")"]))]
+        use = [("label", "top"), ("op", "jumpdest"), ("op", "pc"), ("label", "bottom"), ("op", "jumpdest"),
+               rng.choice([("push", 3, X(rng, ["add", "("] + neg + [")"])), ("push", 3, X(rng, ["neg2", "("] + neg + [")"])),
+                           ("push", 3, X(rng, ["fw", "(", str(a), ",", str(a + b), ")"])), ("apush", X(rng, ["add", "("] + neg + [")"]))])]
+    elif kind == "arg_call":
         prog = [("edef", "h", ["v"], X(rng, ["$v", "*", "2"])),
                 ("edef", "f", ["x", "p"], X(rng, rng.choice([["$x", "+", "$p"], ["$x", "*", "100", "-", "$p"]]))),
                 ("edef", "g", ["p"], X(rng, ["f", "(", "h", "(", "$p", ")", ",", lit(rng, b), ")"]))]
@@ -523,6 +533,45 @@ def gen_macro_arg_layout(rng):
         body += [("push", 2, X(rng, ["here"]))]
     body += filler(rng, n) + [("label", "far"), ("op", "jumpdest")]
     return (prog + body) if rng.random() < 0.6 else (body + prog)
+
+
+def gen_exprs_wide(rng):
+    """operands the arithmetic of which must be exact beyond machine words, and hashing terms combined in ONE operand:
+    two or three `selector("…")` / `topic("…")` terms added, subtracted or nested in parentheses (each term denotes the hash
+    of ITS signature only), differences and sums around 2^63 / 2^64 / 2^128 (small - 0xffffffffffffffff is negative, not a
+    wrapped machine word), products and quotients of 64-bit and wider values"""
+    sigs = ["transfer(address,uint256)", "f()", "a_b(uint8)", "T(uint256,bytes32)", "_x()", "name()", "balanceOf(address)"]
+    kind = rng.choice(["hash2", "hash2", "hash3", "wrap64", "wrap64", "wide"])
+    prog = [("label", "l0"), ("op", "pc")]
+    if kind in ("hash2", "hash3"):
+        k = rng.choice(["selector", "topic"])
+        terms = [f'{k}("{rng.choice(sigs)}")' for _ in range(2 if kind == "hash2" else 3)]
+        if rng.random() < 0.3:
+            terms[1] = terms[0]                     # x - x must be 0, x + x must be 2x
+        toks = [terms[0]]
+        for t in terms[1:]:
+            toks += [rng.choice(["+", "+", "-", "*"]), rng.choice([[t], ["(", t, ")"]])[0] if False else t]
+        if rng.random() < 0.3:
+            toks = ["("] + toks + [")", "/", "3"]
+        prog.append(("push", 32, X(rng, toks)))
+        prog.append(("apush", X(rng, toks)))
+    elif kind == "wrap64":
+        big = rng.choice([(1 << 64) - 1, (1 << 64) - 16, (1 << 63), (1 << 63) + 1, (1 << 64), (1 << 63) - 1, (1 << 32) - 1])
+        small = rng.choice([0, 1, 2, 5, 255, 256])
+        form = rng.choice([[lit(rng, small), "-", lit(rng, big)], ["l0", "-", lit(rng, big)], [lit(rng, big), "-", lit(rng, small)],
+                           [lit(rng, big), "+", lit(rng, big)], [lit(rng, big), "-", lit(rng, big), "+", lit(rng, small)],
+                           [lit(rng, small), "-", "(", lit(rng, big), "-", lit(rng, 1), ")"]])
+        n = rng.choice([1, 2, 8, 9, 32])
+        prog.append(("push", n, X(rng, form)))
+        prog.append(("apush", X(rng, form)))
+        prog.append(("mdef", "sub1", ["x"], [("push", n, X(rng, [lit(rng, small), "-", "$x"]))]))
+        prog.append(("minv", "sub1", [X(rng, [lit(rng, big)])]))
+    else:
+        a, b = rng.getrandbits(rng.choice([64, 65, 128, 200])), rng.getrandbits(rng.choice([33, 64, 70])) | 1
+        form = rng.choice([[lit(rng, a), "*", lit(rng, b)], [lit(rng, a), "/", lit(rng, b)], [lit(rng, a), "-", lit(rng, b), "*", "2"],
+                           [lit(rng, a * b), "/", lit(rng, b), "-", lit(rng, a)]])
+        prog.append(("push", 32, X(rng, form)))
+    return prog
 
 
 def gen_macros(rng):
